@@ -373,5 +373,6 @@ def run(chk, prog, tier):
     check_lastrun(chk, prog)
     check_restamp(chk, prog)
     check_tsadvance(chk, prog)
-    from . import c16
+    from . import c16, c14
     c16.check_fast_subset(chk, prog)
+    c14.check_siblings(chk, prog)
